@@ -19,13 +19,16 @@ from . import d_util as U
 PROP = 'C10'
 LEAN_MODULES = ['Femio.Props.C10']
 THEOREMS = ['C10_element_closed', 'C10_element_outward', 'C10_boundary_spec', 'C10_fistr_scan_spec', 'C10_closed',
-            'C10_closed_manifold', 'C10_volume', 'C10_same_face_set', 'C10_fistr_same_keys', 'C10_fistr_numbers', 'C10_obj_roundtrip']
+            'C10_closed_manifold', 'C10_volume', 'C10_same_face_set', 'C10_fistr_same_keys', 'C10_fistr_numbers', 'C10_obj_roundtrip',
+            'C10_obj_lex_print', 'C10_obj_roundtrip_chars']
 PARTIAL = [
     'C10_element_outward / C10_volume: quadrilateral faces are measured by the centroid-fan flux (exact for planar '
     'faces; for warped faces the statement is about that discretisation, which is also what femio\'s "centroid" '
     'volume kernels integrate)',
-    'C10_obj_roundtrip is proved on token lines (a line = list of blank-free tokens); the character-level '
-    'split/join and the decimal text of the coordinates (pandas repr -> float) are covered by the correspondence only',
+    'C10_obj_roundtrip_chars: the coordinate numerals are opaque whitespace-free tokens (hypothesis vertsOKB, evaluated '
+    'by the driver on every case); that float(repr(x)) == x for the decimal text of the coordinates is trusted '
+    '(Python shortest repr) and exercised by the correspondence; line splitting models StringSeries.read_file as '
+    '"split at newlines, skip empty lines" (pandas read_csv quoting / carriage returns not modelled)',
     'STL export is not runnable in this sandbox (numpy-stl missing) and is not covered',
 ]
 RULE = ('seeded conforming solid meshes from harness/meshgen.gen_geometric: kind in tet / tet2 / hex / mixed '
@@ -240,6 +243,11 @@ def correspond(ctx, m, obs, case):
         a, b = obs['obj_text'].splitlines(), text.splitlines()
         k = next((i for i, (x, y) in enumerate(zip(a, b)) if x != y), min(len(a), len(b)))
         ctx.disagree('.obj text', case, a[k:k + 2], b[k:k + 2])
+    hyp = t.nat()
+    ctx.count('hypothesis of C10_obj_roundtrip_chars holds (vertsOKB): ' + ('yes' if hyp else 'NO'))
+    if not hyp:
+        ctx.disagree('generated case violates the Boolean hypothesis of C10_obj_roundtrip_chars', case, 'in-quantifier input',
+                     'vertsOKB = false')
     if t.nat() != 1:
         ctx.disagree('.obj model re-read failed', case, 'ok', 'none')
     else:
